@@ -71,15 +71,16 @@ type Op struct {
 
 // Trace is what the user code observed/did during one entry-point call (reset before each call).
 type Trace struct {
-	Calls     int  // number of user marshaler invocations
-	Escaped   bool // some script popped below the depth at which it was entered
-	RelaxDup  bool // a script ran a nested MarshalEncode with AllowDuplicateNames(true)
-	RelaxUTF8 bool // … with AllowInvalidUTF8(true)
-	OpErrs    int  // encoder calls of scripts that returned an error (ignored or not)
-	Uniq      int  // counter for fresh names
-	Nest      int  // current recursion depth of user code (scripts may re-enter Marshal)
-	Swallowed int  // failed nested MarshalEncode calls whose error the script swallowed
-	DupDesync bool // a nested MarshalEncode of the script ran with an AllowDuplicateNames value different from the enclosing
+	Calls      int  // number of user marshaler invocations
+	Escaped    bool // some script popped below the depth at which it was entered
+	RelaxDup   bool // a script ran a nested MarshalEncode with AllowDuplicateNames(true)
+	RelaxUTF8  bool // … with AllowInvalidUTF8(true)
+	OpErrs     int  // encoder calls of scripts that returned an error (ignored or not)
+	Uniq       int  // counter for fresh names
+	Nest       int  // current recursion depth of user code (scripts may re-enter Marshal)
+	Swallowed  int  // failed nested MarshalEncode calls whose error the script swallowed
+	DupToggled bool // a nested MarshalEncode of the script ran with an AllowDuplicateNames value different from the enclosing coder's
+	DupDesync  bool // a nested MarshalEncode of the script ran with an AllowDuplicateNames value different from the enclosing
 	// coder's EITHER while an object was already open around it OR ending with more containers open than it started with:
 	// objects then exist that were begun under one value and are continued/closed under the other (root cause D9)
 	Dropped bool // an AppendText returned a slice that does not extend the buffer it was given (contract breach)
@@ -411,6 +412,9 @@ func nestedMarshal(enc *jsontext.Encoder, tr *Trace, v any, opts []json.Options)
 		}
 	}
 	err := json.MarshalEncode(enc, v, opts...)
+	if before != during {
+		tr.DupToggled = true
+	}
 	if before != during && (inObject || enc.StackDepth() > d0) {
 		tr.DupDesync = true
 	}
